@@ -62,6 +62,17 @@ class HarnessError(Exception):
     """Raised for a problem in the verification machinery itself."""
 
 
+def jdumps(obj, **kw):
+    """Readable JSON (non-ASCII kept), except that text holding lone
+    surrogates - which no UTF-8 file can carry - is escaped throughout."""
+    s = json.dumps(obj, ensure_ascii=False, **kw)
+    try:
+        s.encode('utf-8')
+    except UnicodeEncodeError:
+        s = json.dumps(obj, ensure_ascii=True, **kw)
+    return s
+
+
 def canon(case):
     return json.dumps(case, sort_keys=True, ensure_ascii=True,
                       separators=(',', ':'))
